@@ -224,6 +224,14 @@ def clauses (o : Obs) : List (String × Bool) :=
 
 def holds (o : Obs) : Bool := (clauses o).all (·.2)
 
+/-- restapi's libp2p identity (case kind `rlib`): tokens given, result, state, saved tokens, reload -/
+def rlibClauses (idT keyT res sid skey : String) (valid : Bool) (saved rres : String) : List (String × Bool) :=
+  let ok := res == "ok"
+  [ ("no_crash", res != "panic" && saved != "panic" && rres != "panic"),
+    ("accepted_valid", !ok || valid),
+    ("preserved", !ok || ((idT == "-" || sid == tokIndex idT) && (keyT == "-" || skey == tokIndex keyT))),
+    ("roundtrip", !ok || (saved == (if sid == "-" then "-" else "i" ++ sid) ++ ":" ++ (if skey == "-" then "-" else "k" ++ skey) && rres == "ok")) ]
+
 end Ident
 
 /-! ## DisplayJSON on arbitrary struct types (case kind `disp`, round 8)
